@@ -177,7 +177,19 @@ func (c *Ctx) index() {
 			}
 		}
 	}
-	sort.Slice(c.srcFns, func(i, j int) bool { return c.srcFns[i].Pos() < c.srcFns[j].Pos() })
+	// by file name, then offset: token.Pos values depend on the order in which the files were
+	// added to the file set, and go/packages parses them concurrently
+	fset := c.Prog.Fset
+	sort.SliceStable(c.srcFns, func(i, j int) bool {
+		pi, pj := fset.Position(c.srcFns[i].Pos()), fset.Position(c.srcFns[j].Pos())
+		if pi.Filename != pj.Filename {
+			return pi.Filename < pj.Filename
+		}
+		if pi.Offset != pj.Offset {
+			return pi.Offset < pj.Offset
+		}
+		return c.srcFns[i].String() < c.srcFns[j].String()
+	})
 }
 
 // fnName gives "(*T).m", "T.m", "f" or "f$1" for closures (relative to root package).
